@@ -490,14 +490,25 @@ def opened_files(sim, resolved, root):
     return out
 
 
-def run_schema_case(case: dict, stats: Stats | None = None) -> dict:
-    """One schema-name string through every entry that takes a schema argument."""
-    root, snap0 = ensure_layout(case["variant"])
-    cwd = os.path.join(root, case.get("cwd", "proj"))
-    home = os.path.join(root, "home")
-    name = case["name"]
-    via = case["via"]
+_control_cache: dict = {}
 
+
+def _control_opened(key, root, cwd, home, fn_factory) -> set:
+    """Files the entry point opens REGARDLESS of the argument (one-time initialisation such as importlib.metadata look-ups,
+    lazily imported modules): measured with a benign control argument, run twice (the first run also warms the process up).
+    They are not 'selected by' the argument and are subtracted before judging."""
+    k = (os.getpid(), key)
+    if k in _control_cache:
+        return _control_cache[k]
+    got = set()
+    for _ in range(2):
+        sim, a, resolved = Recorder(root).run(fn_factory("ZZ_CONTROL_NAME_THAT_DOES_NOT_EXIST"), cwd=cwd, home=home)
+        got = set(opened_files(sim, resolved, root))
+    _control_cache[k] = got
+    return got
+
+
+def _schema_fn(via, name, root):
     def fn():
         if via == "loader":
             from octave_mcp.schemas.loader import load_schema_by_name
@@ -517,6 +528,19 @@ def run_schema_case(case: dict, stats: Stats | None = None) -> dict:
             return run_cli(["validate", os.path.join(root, "sb/docs/a.oct.md"), "--schema", name])
         raise ValueError(via)
 
+    return fn
+
+
+def run_schema_case(case: dict, stats: Stats | None = None) -> dict:
+    """One schema-name string through every entry that takes a schema argument."""
+    root, snap0 = ensure_layout(case["variant"])
+    cwd = os.path.join(root, case.get("cwd", "proj"))
+    home = os.path.join(root, "home")
+    name = case["name"]
+    via = case["via"]
+
+    fn = _schema_fn(via, name, root)
+    control = _control_opened(("schema", via, case.get("cwd", "proj")), root, cwd, home, fn_factory=lambda nm: _schema_fn(via, nm, root))
     sim, a, resolved = Recorder(root).run(fn, cwd=cwd, home=home)
     snap1 = snapshot_m(root)
     d = diff_m(snap0, snap1)
@@ -525,7 +549,7 @@ def run_schema_case(case: dict, stats: Stats | None = None) -> dict:
     viols = []
     allowed = allowed_schema_dirs(cwd, home)
     inputs = {os.path.join(root, "sb/docs/a.oct.md")}
-    opened = [p for p in opened_files(sim, resolved, root) if p not in inputs]
+    opened = [p for p in opened_files(sim, resolved, root) if p not in inputs and p not in control]
     bad = [p for p in opened if not any(under(p, dd) for dd in allowed) and not p.endswith((".py", ".pyc"))]
     if bad:
         viols.append({"clause": "R3", "signature": f"R3|{via}",
@@ -668,6 +692,34 @@ def run_frozen_case(case: dict, stats: Stats | None = None) -> dict:
         return drive(WriteTool().execute(target_path=os.path.join(root, "sb/docs/a.oct.md"), content=NEWDOC, schema=ref,
                                          corrections_only=True))
 
+    def control_factory(_nm):
+        cref = "frozen@sha256:" + "0" * 64
+
+        def cfn():
+            if via == "resolve":
+                from octave_mcp.core.hydrator import resolve_hermetic_standard
+
+                try:
+                    return {"path": str(resolve_hermetic_standard(cref))}
+                except Exception:  # noqa: BLE001
+                    return {}
+            if via == "resolve_cache_dir":
+                from pathlib import Path
+
+                from octave_mcp.core.hydrator import resolve_hermetic_standard
+
+                try:
+                    return {"path": str(resolve_hermetic_standard(cref, Path(cache)))}
+                except Exception:  # noqa: BLE001
+                    return {}
+            from octave_mcp.mcp.write import WriteTool
+
+            return drive(WriteTool().execute(target_path=os.path.join(root, "sb/docs/a.oct.md"), content=NEWDOC, schema=cref,
+                                             corrections_only=True))
+
+        return cfn
+
+    control = _control_opened(("frozen", via), root, os.path.join(root, "sb"), home, control_factory)
     sim, a, resolved = Recorder(root).run(fn, cwd=os.path.join(root, "sb"), home=home)
     snap1 = snapshot_m(root)
     d = diff_m(snap0, snap1)
@@ -680,7 +732,7 @@ def run_frozen_case(case: dict, stats: Stats | None = None) -> dict:
                       "detail": f"{via}({ref.replace(root, '<R>')!r}): {detail}"})
 
     inputs = {os.path.join(root, "sb/docs/a.oct.md")}
-    opened = [p for p in opened_files(sim, resolved, root) if p not in inputs]
+    opened = [p for p in opened_files(sim, resolved, root) if p not in inputs and p not in control]
     stray = [p for p in opened if not under(p, cache)]
     if stray:
         V("R4.outside", f"opened {[_rel(p, root) for p in stray[:3]]}, outside the standards cache")
@@ -758,6 +810,25 @@ def run_uri_case(case: dict, stats: Stats | None = None) -> dict:
         res = check_staleness(doc, base_path=Path(base), allowed_root=Path(base))
         return {"staleness": [(r.status, r.error) for r in res]}
 
+    def control_factory(_nm):
+        def cfn():
+            if via == "validate_source_uri":
+                from octave_mcp.core.hydrator import validate_source_uri
+
+                try:
+                    return {"p": str(validate_source_uri("zz_control_missing.oct.md", Path(base)))}
+                except Exception:  # noqa: BLE001
+                    return {}
+            from octave_mcp.core.hydrator import check_staleness
+            from octave_mcp.core.parser import parse
+
+            doc = parse('===H===\nMETA:\n  TYPE::TEST\n§CONTEXT::SNAPSHOT["@t/v"]\n  T::1\n§SNAPSHOT::MANIFEST\n'
+                        '  SOURCE_URI::"zz_control_missing.oct.md"\n  SOURCE_HASH::"sha256:00"\n===END===\n')
+            return {"s": len(check_staleness(doc, base_path=Path(base), allowed_root=Path(base)))}
+
+        return cfn
+
+    control = _control_opened(("uri", via), root, os.path.join(root, "sb"), None, control_factory)
     sim, a, resolved = Recorder(root).run(fn, cwd=os.path.join(root, "sb"))
     snap1 = snapshot_m(root)
     d = diff_m(snap0, snap1)
@@ -768,7 +839,7 @@ def run_uri_case(case: dict, stats: Stats | None = None) -> dict:
     def V(clause, detail):
         viols.append({"clause": clause, "signature": f"{clause}|{via}", "detail": f"{via}({uri.replace(root, '<R>')!r}, base=<R>{base[len(root):]}): {detail}"})
 
-    opened = opened_files(sim, resolved, root)
+    opened = [p for p in opened_files(sim, resolved, root) if p not in control]
     stray = [p for p in opened if not under(p, base_real)]
     if stray:
         V("R5.opened-outside", f"opened {[_rel(p, root) for p in stray[:3]]}, outside the base directory")
